@@ -150,6 +150,10 @@ class FortranGen:
             op = self.pick(["<", ">", "<=", ">=", "!=", "=="], "cmp")
             if op in ("!=", "=="):
                 b = Const(self.pick([1.0, 2.0, 0.0, 3.0], "eqc"))
+            if getattr(self, "nan_s", False) and "<state>s" in D and t.chance(0.5, "nancmp"):
+                # a comparison with the NaN scalar, plain or negated, on either side
+                c = Cmp(op, Var("<state>s"), b) if t.chance(0.5, "nanleft") else Cmp(op, a, Var("<state>s"))
+                return Not(c) if t.chance(0.6, "nanneg") else c
             return Cmp(op, a, b)
         if k == 1:
             return Var(self.pick(bs, "bv"))
@@ -273,7 +277,13 @@ class FortranGen:
             te = [Var("<t>"), Bin("+", Var("<t>"), Bin("*", Const(self.pick([0.5, 1.0, 0.25], "tc")), Var("<dt>"))),
                   Bin("+", Var("<t>"), Var("<dt>"))][t.draw(3, "te")]
             srcs = [u for u in uts if u != tgt] or uts
-            args = [te, Var(self.pick(srcs, "arg"))]
+            yarg = Var(self.pick(srcs, "arg"))
+            if t.chance(0.25, "compoundarg"):
+                # a compound argument (the Fortran pipeline isolates it into a temporary of its own)
+                other = Var(self.pick(srcs, "arg_b"))
+                yarg = [Bin("*", Const(self.pick(DYADIC, "argc")), yarg), Bin("+", yarg, other),
+                        Bin("-", yarg, Bin("*", Var("<dt>"), other))][t.draw(3, "argform")]
+            args = [te, yarg]
             kws = []
             if FFUNCS[fn][0] == 2:
                 z = Var(self.pick(srcs, "arg2"))
@@ -683,6 +693,32 @@ class FortranGen:
             return ("assign", "<state>v", None, Var("v2"), [], self.mode())
         return None
 
+    def poly_block(self, role):
+        t = self.tape
+        n = 3 + t.draw(2, "polyn")
+        m = self.mode
+
+        def filled(name, e):
+            return [("call", (name,), Call("<builtin>array", [Const(n)]), m()),
+                    ("assign", name, Var("i"), e, [("i", Const(0), Const(n))], m())]
+
+        def read(name):
+            return ("assign", "<state>r", None,
+                    Bin("+", Sub(name, Const(0)), Bin("*", Const(2.0), Sub(name, Const(n - 1)))), [], m())
+        if role == "scalar":
+            return ([("assign", "pz", None, Bin("*", Const(2.0), Var("<dt>")), [], m())]
+                    + filled("pa", Bin("+", Var("i"), Const(0.5))) + filled("pb", Bin("*", Var("i"), Const(1.5)))
+                    + [("assign", "pb", None, Bin("*", Var("pz"), Var("pa")), [], m()), read("pb")])
+        e = [Bin("*", Const(2.0), Var("pz")), Bin("+", Var("pz"), Var("pz")),
+             Bin("-", Var("pz"), Bin("*", Var("<dt>"), Var("pz")))][t.draw(3, "polyform")]
+        # (the target either does not exist yet or has another length: it gets new storage here)
+        pre = []
+        if t.chance(0.5, "polyprealloc"):
+            pre = [("call", ("pc",), Call("<builtin>array", [Const(n + 1)]), m()),
+                   ("assign", "pc", Var("i"), Bin("*", Var("i"), Const(1.5)), [("i", Const(0), Const(n + 1))], m())]
+        return (filled("pz", Bin("+", Var("i"), Const(0.5))) + pre
+                + [("assign", "pc", None, e, [], m()), read("pc")])
+
     def gen(self):
         t = self.tape
         sc = FScript()
@@ -721,6 +757,12 @@ class FortranGen:
                 self.types["<state>s"] = "real"
                 self.exact.add("<state>s")
                 sc.state0["s"] = float(self.pick(SMALL, "s0"))
+                if t.chance(0.12, "s_nan"):
+                    # a persistent scalar that is not a number from the start: every comparison with it is
+                    # false in both back ends (and a negated comparison true)
+                    sc.state0["s"] = float("nan")
+                    sc.has_nan = True
+                    self.nan_s = True
                 self.pers_real.append("<state>s")
                 if t.chance(0.4, "state_S"):
                     # a second persistent scalar whose name differs in case only: both compete for one
@@ -744,6 +786,13 @@ class FortranGen:
             self.cls["<state>r"] = "inexact"
         persistent = set(self.types)
         prev_core = None
+        # a per-step name that is a scalar in one phase and an array in another (per-phase kinds)
+        poly_plan = None
+        with t.span("polyname"):
+            if len(names) >= 2 and "<state>r" in self.types and t.chance(0.25, "polyname"):
+                order = [i for i in t.perm(len(names), "polyphases")][:2]
+                poly_plan = {order[0]: "scalar", order[1]: "array"}
+                self.n_poly = 1
         for pi, name in enumerate(names):
             with t.span("phase"):
                 D = set(persistent)
@@ -768,6 +817,8 @@ class FortranGen:
                     core = self.gen_block(D, 2, 1 + t.draw(self.max_ops, "nops"))
                 prev_core = (core, set(D))
                 ops += core
+                if poly_plan is not None and pi in poly_plan:
+                    ops += self.poly_block(poly_plan[pi])
                 # typing anchor and time advance
                 if not any(op[0] == "call" and op[2].fn in FFUNCS for op in _flat(ops)) or t.chance(0.5, "anchor"):
                     self.used_funcs.add("<func>f")
@@ -824,6 +875,7 @@ class FortranGen:
         sc.n_shrink = self.n_shrink
         sc.n_condpair = self.n_condpair
         sc.n_twin = getattr(self, "n_twin", 0)
+        sc.n_poly = getattr(self, "n_poly", 0)
         sc.struct = self.struct
         sc.M = self.M
         sc.has_v = any(("<state>v" in (op[1],) if op[0] == "assign" else False) or
